@@ -27,3 +27,42 @@ static inline colvar *e2e_cv(const char *name) { return cvm::colvar_by_name(name
 static inline colvarbias *e2e_bias(const char *name) { return cvm::bias_by_name(name); }
 static inline void e2e_pos(int i, cvm::real x, cvm::real y, cvm::real z) { (*px->modify_atom_positions())[i] = cvm::rvector(x, y, z); }
 static inline int e2e_natoms() { return (int) px->get_atom_ids()->size(); }
+
+// ---- force = -dE/dx check shared by the C01 / C08 harnesses -----------------------------------------------------------
+static const char *E2E_XN[8][3] = {{"x0","y0","z0"},{"x1","y1","z1"},{"x2","y2","z2"},{"x3","y3","z3"},{"x4","y4","z4"},{"x5","y5","z5"},{"x6","y6","z6"},{"x7","y7","z7"}};
+static const char *E2E_FL[8][3] = {{"force.atom0.x","force.atom0.y","force.atom0.z"},{"force.atom1.x","force.atom1.y","force.atom1.z"},{"force.atom2.x","force.atom2.y","force.atom2.z"},
+  {"force.atom3.x","force.atom3.y","force.atom3.z"},{"force.atom4.x","force.atom4.y","force.atom4.z"},{"force.atom5.x","force.atom5.y","force.atom5.z"},
+  {"force.atom6.x","force.atom6.y","force.atom6.z"},{"force.atom7.x","force.atom7.y","force.atom7.z"}};
+static const double E2E_MASS[8] = {1.0, 2.0, 3.5, 12.0, 16.0, 1.25, 14.0, 32.0};
+static const double E2E_CHARGE[8] = {0.5, -1.0, 0.25, 1.0, -0.75, 0.125, -0.25, 2.0};
+
+// proxy with natoms atoms registered up front (distinct masses and charges), then the configuration
+static inline int e2e_make(int natoms, const char *conf) {
+  px = new colvarproxy_stub();
+  for (int i = 0; i < natoms; i++) { px->init_atom(i + 1); px->atoms_masses[i] = E2E_MASS[i]; px->atoms_charges[i] = E2E_CHARGE[i]; }
+  return e2e_config(conf);
+}
+// all coordinates free and differentiated
+static inline void e2e_free_positions(int natoms) {
+  for (int i = 0; i < natoms; i++) e2e_pos(i, verif_sym_double_ad(E2E_XN[i][0]), verif_sym_double_ad(E2E_XN[i][1]), verif_sym_double_ad(E2E_XN[i][2]));
+}
+// one atom pinned to the point (x,y,z) of a slice, still differentiated
+static inline void e2e_pin(int i, cvm::real x, cvm::real y, cvm::real z) {
+  e2e_pos(i, verif_ad_seed(x, E2E_XN[i][0]), verif_ad_seed(y, E2E_XN[i][1]), verif_ad_seed(z, E2E_XN[i][2]));
+}
+static inline int e2e_step() {
+  int e = px->colvars->calc_colvars(); e |= px->colvars->calc_biases(); e |= px->colvars->update_colvar_forces();
+  return e;
+}
+// every atom known to the proxy: applied force == -d(reported energy)/d(position)
+static inline void e2e_check_forces(int natoms) {
+  cvm::real E = px->colvars->total_bias_energy;
+  verif_out_double("energy", E);
+  for (int i = 0; i < natoms; i++) {
+    cvm::rvector f = px->atoms_new_colvar_forces[i];
+    verif_assert_eq(f.x, -verif_deriv(E, E2E_XN[i][0]), E2E_FL[i][0]);
+    verif_assert_eq(f.y, -verif_deriv(E, E2E_XN[i][1]), E2E_FL[i][1]);
+    verif_assert_eq(f.z, -verif_deriv(E, E2E_XN[i][2]), E2E_FL[i][2]);
+    if (i < 3) { verif_out_double(E2E_FL[i][0], f.x); }
+  }
+}
